@@ -96,7 +96,12 @@ Fixpoint fix_centres (g : geo) (names : list str) : res geo :=
   end.
 Definition check_fix (g : geo) (hm : list key2) (hbad : list str) : res geo :=
   do g1 <- add_missing g hm;
-  do g2 <- delete_connections g1 (extra_keys g1);
+  let ek := extra_keys g1 in
+  do g2a <- delete_connections g1 ek;
+  (* repaired source (proposed_fixes/C10-check-fix-name-index.diff): connections were added / deleted, the connection name
+     index is set up again *)
+  do g2 <- (if fx_check (fx g) && negb (match hm, ek with [], [] => true | _, _ => false end)
+            then setup_block_connection_name_index g2a else Ok g2a);
   do g3 <- delete_orphans g2;
   do g4 <- fix_centres g3 hbad;
   Ok (fold_left fix_layer (tl (llist g4)) g4).
